@@ -77,6 +77,9 @@ struct Spec {
     structs: &'static [(&'static str, &'static str, &'static str, &'static str)],
     /// Rust type (compact) ↦ Lean type, for enum payloads and struct fields
     types: &'static [(&'static str, &'static str)],
+    /// `let name = init;` statements (checked verbatim, compact) that are not translated: the
+    /// variable is opaque, i.e. only usable through the name map
+    opaque_lets: &'static [(&'static str, &'static str)],
     /// what the abstraction hides (printed into the header)
     note: &'static str,
 }
@@ -105,6 +108,7 @@ const SPECS: &[Spec] = &[
         enums: &[("RoaMode", "src/server/ca/roa.rs", "")],
         structs: &[],
         types: &[],
+        opaque_lets: &[],
         note: "`self` is only consulted through `is_currently_aggregating()` (a Bool parameter).",
     },
     Spec {
@@ -134,6 +138,7 @@ const SPECS: &[Spec] = &[
         enums: &[],
         structs: &[],
         types: &[],
+        opaque_lets: &[],
         note: "deltas are abstract (`Δ`); the two wall-clock tests of a delta are parameter functions \
                `younger`/`older : Δ → seconds → Bool`; the four fields of `RrdpUpdatesConfig` are parameters.",
     },
@@ -160,6 +165,7 @@ const SPECS: &[Spec] = &[
         enums: &[],
         structs: &[],
         types: &[],
+        opaque_lets: &[],
         note: "`Time` and `Duration` are whole seconds (`Int`); `Time - Duration` and `Time > Time` are the integer operations; \
                the wall clock `Time::now()` is a parameter; `self.next_update()` is the getter of `self.revision.next_update`.",
     },
@@ -187,6 +193,7 @@ const SPECS: &[Spec] = &[
         enums: &[("ResourceClassKeyState", "src/server/ca/publishing.rs", "")],
         structs: &[],
         types: &[],
+        opaque_lets: &[],
         note: "key object sets are abstract (`S`), `KeyObjectSet::requires_reissuance` is the parameter `due`; the payload of \
                `ResourceClassKeyState` is flattened into the three set parameters (each arm only reads the sets its variant has).",
     },
@@ -226,9 +233,54 @@ const SPECS: &[Spec] = &[
             ("RouteOriginValidity", "RouteOriginValidity π"),
             ("Vec<RoaPayload>", "List π"),
         ],
+        opaque_lets: &[],
         note: "ROAs (`ρ`), route origins (`ω`) and payloads (`π`) are abstract; AS numbers and prefix lengths are `Nat` \
                (`AsNumber::AS0` = 0); what the loop reads of a ROA are parameter functions (`roa_covers r` = \
                `r.prefix.covers(origin.prefix)`); of the origin it reads its AS number and prefix length (parameters).",
+    },
+    Spec {
+        id: "C02",
+        file: "src/server/ca/keys.rs",
+        ty: "CertifiedKey",
+        method: "wants_update",
+        lean: "CertifiedKey.wants_update",
+        sig: "&self,handle:&CaHandle,rcn:&ResourceClassName,new_resources:&ResourceSet,new_not_after:Time->bool",
+        binders: "(ca_repository_ends_with_slash resources_unchanged resources_are_all : Bool) (cert_not_after new_not_after clock : Int)",
+        args: "ca_repository_ends_with_slash resources_unchanged resources_are_all cert_not_after new_not_after clock",
+        ret: "Bool",
+        num: Num::Int,
+        names: &[
+            ("self.incoming_cert.ca_repository().ends_with(\"/\")", "ca_repository_ends_with_slash"),
+            ("resources_diff.is_empty()", "resources_unchanged"),
+            ("self.incoming_cert().resources==ResourceSet::all()", "resources_are_all"),
+            ("not_after.timestamp()", "cert_not_after"),
+            ("new_not_after.timestamp()", "new_not_after"),
+            ("Time::now().timestamp()", "clock"),
+            (
+                "(remaining_seconds_on_eligibleasf64/remaining_seconds_on_currentasf64)<0.9_f64",
+                "decide (10 * remaining_seconds_on_eligible < 9 * remaining_seconds_on_current)",
+            ),
+            (
+                "(remaining_seconds_on_eligibleasf64/remaining_seconds_on_currentasf64)>1.1_f64",
+                "decide (10 * remaining_seconds_on_eligible > 11 * remaining_seconds_on_current)",
+            ),
+        ],
+        methods: &[],
+        state_ty: &[],
+        elem_ty: "",
+        enums: &[],
+        structs: &[],
+        types: &[],
+        opaque_lets: &[
+            ("resources_diff", "new_resources.difference(&self.incoming_cert.resources)"),
+            ("not_after", "self.incoming_cert.validity.not_after()"),
+        ],
+        note: "FLOATS: the two `f64` ratio tests `e/c < 0.9`, `e/c > 1.1` are NOT translated but mapped to the integer \
+               predicates `10·e < 9·c`, `10·e > 11·c` of the model (they are only evaluated for `c > 0`, where the exact \
+               rational comparison is the same; the rounding of the f64 quotient is outside the translation and sampled at \
+               the boundaries by the `pure` stream).  Times are unix seconds (`Int`); the certificate enters through three \
+               Booleans (id-ad-caRepository ends with `/`; `new_resources.difference(cert.resources).is_empty()`; \
+               `cert.resources == ResourceSet::all()`) and its not-after time.",
     },
 ];
 
@@ -621,6 +673,13 @@ impl<'a> Tr<'a> {
                 if self.name(&name).is_some() || self.local(&name).is_some() || self.opaque.contains(&name) {
                     return Err(format!("`let {name}` shadows a name already in scope"));
                 }
+                if let Some((_, init_c)) = self.spec.opaque_lets.iter().find(|(n, _)| *n == name) {
+                    if mutable || compact(&init.expr) != *init_c {
+                        return Err(format!("opaque `let {name}` changed: `{}` (expected `{init_c}`)", compact(&init.expr)));
+                    }
+                    self.opaque.push(name);
+                    return self.seq(rest, ctl, ind);
+                }
                 if name == "tail" {
                     return Err("local named `tail` (reserved by the loop translation)".into());
                 }
@@ -994,6 +1053,9 @@ pub fn run(repo: &Path, table: &str) -> String {
             if k != v {
                 out.push_str(&format!("    `{k}` ↦ `{v}`\n"));
             }
+        }
+        for (n, i) in s.opaque_lets {
+            out.push_str(&format!("    `let {n} = {i};` is not translated; `{n}` is only used through the entries above\n"));
         }
         for ((r, m), v) in s.methods {
             out.push_str(&format!("    `{r}.{m}(args…)` ↦ `{v} args…`\n"));
